@@ -54,3 +54,15 @@ void igris_verif_use_sop_tr(igris::static_object_pool<VTr, 3> &p, VTr *obj, cons
     (void)p.create(x);
     (void)p.create(5);
 }
+
+// element whose storage cell is padded: sizeof 12, alignof 4 -> elsize() 12, sizeof(storage_type) 16
+struct igris_verif_P12
+{
+    int a, b, c;
+};
+
+void igris_verif_use_sop_p12(igris::static_object_pool<igris_verif_P12, 3> &p, igris_verif_P12 *obj)
+{
+    igris::static_object_pool<igris_verif_P12, 3> local;
+    use_sop<igris_verif_P12>(p, obj);
+}
